@@ -119,6 +119,9 @@ type Machine struct {
 	// Dirty: updates/deletes since the last trie commit. Unwritten: a trie commit's batch not yet written.
 	Dirty bool
 	Fail  func(string, ...any)
+	// Past[key]: every value the key ever had (for updates that go back to an earlier value)
+	Past   map[string][][]byte
+	delSeq int
 }
 
 func New(db *memkv.Store, fail func(string, ...any)) *Machine {
@@ -163,15 +166,65 @@ func (m *Machine) UpdateW(key, value []byte, w uint64) {
 		m.Fail("Update(%x): %v", key, err)
 	}
 	m.Model[string(key)] = refwmpt.Entry{Key: key, Value: value, Weight: w}
+	if m.Past == nil {
+		m.Past = map[string][][]byte{}
+	}
+	known := false
+	for _, p := range m.Past[string(key)] {
+		known = known || bytes.Equal(p, value)
+	}
+	if !known {
+		m.Past[string(key)] = append(m.Past[string(key)], append([]byte(nil), value...))
+	}
 	m.Dirty = true
 	m.CheckWeight()
 }
 
+// Revert updates a live key to a value it had earlier (other than its current one): the drawn key is the n-th live key
+// that has such a value. Returns false when there is none.
+func (m *Machine) Revert(rt *rapid.T, label string) bool {
+	type cand struct {
+		e refwmpt.Entry
+		v []byte
+	}
+	var cs []cand
+	for _, e := range Entries(m.Model) {
+		for _, p := range m.Past[string(e.Key)] {
+			if !bytes.Equal(p, e.Value) {
+				cs = append(cs, cand{e, p})
+			}
+		}
+	}
+	if len(cs) == 0 {
+		return false
+	}
+	c := gen.Pick(rt, cs, label)
+	m.Logf("(back to an earlier value)")
+	m.Update(c.e.Key, append([]byte(nil), c.v...))
+	return true
+}
+
 // Delete removes key; absent keys must report ErrNotFound and change nothing.
 func (m *Machine) Delete(key []byte) {
-	_, present := m.Model[string(key)]
-	m.Logf("del %s", short(key))
-	err := m.T.Update(key, nil, 0)
+	e, present := m.Model[string(key)]
+	// the three spellings of a removal take turns: Update with a nil value, Update with an empty non-nil value, Delete
+	m.delSeq++
+	var err error
+	switch m.delSeq % 3 {
+	case 0:
+		m.Logf("del %s", short(key))
+		err = m.T.Update(key, nil, 0)
+	case 1:
+		m.Logf("del %s (empty value)", short(key))
+		err = m.T.Update(key, []byte{}, 0)
+	default:
+		m.Logf("del %s (Delete)", short(key))
+		var w uint64
+		w, err = m.T.Delete(key)
+		if present && err == nil && w != e.Weight {
+			m.Fail("Delete(%x) reports weight %d, the entry had weight %d", key, w, e.Weight)
+		}
+	}
 	if present {
 		if err != nil {
 			m.Fail("delete of present %x: %v", key, err)
